@@ -16,7 +16,7 @@ from vlib import log, MachineryError
 MAXB = 1 << 20
 SMALL = [1, 63, 64, 65]
 ALL_INVS = "C14_InOrderExactlyOnce C14_NothingLost C14_FreshNonce C14_Encrypted C14_OversizedNotSent C14_OversizedNotAccepted C14_OversizedCloses C14_NotBuffered + action property C14_RefusedSendNoEffect"
-DEV = (("dev_buffered", "C14_NotBuffered"), ("dev_staysopen", "C14_OversizedCloses"), ("dev_noncereuse", "C14_FreshNonce"),
+DEV = (("dev_buffered", "C14_NotBuffered"), ("dev_staysopen", "C14_OversizedCloses"), ("dev_noncereuse", "C14_FreshNonce"), ("dev_sessionnonce", "C14_FreshNonce"),
        ("dev_duplicate", "C14_InOrderExactlyOnce"),
        ("reach_oversizedclosed", "Reach_OversizedClosed"), ("reach_limitdelivered", "Reach_LimitDelivered"), ("reach_sendrefused", "Reach_SendRefused"),
        ("reach_backlog", "Reach_Backlog"), ("reach_validbehindoversized", "Reach_ValidBehindOversized"))
@@ -32,13 +32,14 @@ ASSUME = ["schedules are those loopback TCP produces, varied by: eager / gated /
 
 # ------------------------------------------------------------------------------------------- TLC side
 def model_check(chk):
-    jobs = [("MC_Transport.cfg", None), ("MC_Transport_max3.cfg", None)] + [("MC_Transport_%s.cfg" % c, inv) for c, inv in DEV]
+    jobs = [("MC_Transport.cfg", None), ("MC_Transport_max3.cfg", None), ("MC_Transport_reconnect.cfg", None)] + [("MC_Transport_%s.cfg" % c, inv) for c, inv in DEV]
     with ThreadPoolExecutor(max_workers=6) as ex:
         futs = [(cfg, inv, ex.submit(vlib.mc, "Transport", cfg, expect_violation=inv, workers=2, timeout=600, heap="1g")) for cfg, inv in jobs]
         res = [(cfg, inv, f.result()) for cfg, inv, f in futs]
     for cfg, inv, r in res:
         if inv is None:
             chk.add_model("Transport design=>contract %s" % ("(MAX=2, 6 payloads, 3 valid + 4 oversized hand-written frames, <=3 frames)" if cfg == "MC_Transport.cfg"
+                                                             else "(as MC_Transport.cfg with the session dropping and being re-established under the same key, <=4 frames: nonces stay fresh across sessions)" if "reconnect" in cfg
                                                              else "(MAX=3, all 31 bit-string payloads of length 0..4, <=2 frames)"), r, "invariants " + ALL_INVS)
     return res
 
